@@ -170,9 +170,15 @@ def check_property(prop, tier, seed, only=None, keep=False, write_evidence=True)
                 body.append("failed checks reported by Kani/CBMC:")
                 for c in ent["failed"]:
                     body.append("  - %s  [%s] in %s at %s" % (c["description"], c["category"], c["function"], c["location"]))
+                stubbed = "stubbing" in ent.get("zflags", ())
                 test, nat, pcmd = verif.kani_playback(scratch, o["harness"], features=ent["features"], zflags=ent.get("zflags", ()),
-                                                      timeout_s=o["timeout"] * 2)
-                if test:
+                                                      timeout_s=o["timeout"] * 2, native=not stubbed)
+                if test and stubbed:
+                    body += ["", "counterexample found by Kani/CBMC (values of the harness's symbolic inputs, in order of kani::any() calls).",
+                             "This obligation replaces a callee by its contract (kani::stub): the counterexample is expressed over the",
+                             "callee's contracted result (e.g. the 128-bit product), not over a concrete caller input, so it cannot be",
+                             "executed natively against the real callee:", test]
+                elif test:
                     no_input = False
                     body += ["", "counterexample (Kani concrete playback unit test; insert into `mod verif_kani` of the assembled",
                              "src/%s.rs and run `%s`):" % (o["harness"].split("::")[0], pcmd), test, "",
@@ -213,6 +219,9 @@ def check_property(prop, tier, seed, only=None, keep=False, write_evidence=True)
             log("scratch kept at %s" % scratch)
 
     wall = time.time() - t0
+    if os.environ.get("VERIF_VERBOSE"):
+        for (oid, ft), ent in sorted(results.items()):
+            log("   %-40s %-14s %-9s %6ss checks=%s %s" % (oid, ft, ent["status"], ent.get("duration_s"), ent.get("n_checks"), (ent.get("why") or "")[:150]))
     if write_evidence:
         write_evidence_file(prop, tier, seed, level, meta, results, cmds, info, wall, violations, undecided)
     n_ok = sum(1 for e in results.values() if e["status"] == "ok")
